@@ -604,6 +604,12 @@ func (c *Conn) readRecordOrCCS(expectChangeCipherSpec bool) error {
 		}
 
 		if len(c.rawInputBuf) < recordHeaderLen {
+			if handshakeComplete {
+				// 已建立的连接上，格式不对的数据报（头部不完整、版本或长度不符）与认证失败的记录一样
+				// 静默丢弃（RFC 6347 §4.1.2.7），与 ReadFrom 一致：否则注入一个数据报即可终止连接。
+				c.rawInputBuf = nil
+				continue
+			}
 			return c.in.setErrorLocked(errors.New("dtlcp: record too short"))
 		}
 
@@ -618,6 +624,10 @@ func (c *Conn) readRecordOrCCS(expectChangeCipherSpec bool) error {
 
 		// 版本检查
 		if c.haveVers && vers != c.vers {
+			if handshakeComplete {
+				c.rawInputBuf = nil
+				continue
+			}
 			c.sendAlert(alertProtocolVersion)
 			msg := fmt.Sprintf("received record with version %x when expecting version %x", vers, c.vers)
 			return c.in.setErrorLocked(c.newRecordHeaderError(c.remoteAddr, msg))
@@ -633,6 +643,10 @@ func (c *Conn) readRecordOrCCS(expectChangeCipherSpec bool) error {
 		}
 
 		// 长度检查
+		if handshakeComplete && (n > maxCiphertext || recordHeaderLen+n > len(c.rawInputBuf)) {
+			c.rawInputBuf = nil
+			continue
+		}
 		if n > maxCiphertext {
 			c.sendAlert(alertRecordOverflow)
 			msg := fmt.Sprintf("oversized record received with length %d", n)
@@ -668,6 +682,12 @@ func (c *Conn) readRecordOrCCS(expectChangeCipherSpec bool) error {
 		record := c.rawInputBuf[:recordHeaderLen+n]
 		data, typ, err := c.in.decrypt(record)
 		if err != nil {
+			// 已建立的连接上，认证失败的记录（伪造、损坏）按 RFC 6347 §4.1.2.7 静默丢弃，与 ReadFrom 一致：
+			// 否则任何人向该五元组注入一个数据报即可终止连接。丢弃不触及重放窗口。
+			if handshakeComplete {
+				c.rawInputBuf = c.rawInputBuf[recordHeaderLen+n:]
+				continue
+			}
 			return c.in.setErrorLocked(c.sendAlert(err.(alert)))
 		}
 
